@@ -8,6 +8,7 @@ import TSSVerif.Driver.Adapter
 import TSSVerif.Driver.Translate
 import TSSVerif.Driver.Orch
 import TSSVerif.Driver.Disc
+import TSSVerif.Driver.Net
 /-!
 Line-protocol driver: one operation per input line, one answer per output line. Imports `Model/`
 and `Driver/` only (core Lean), so it links as a native executable; the definitions it runs are the
@@ -34,6 +35,7 @@ def step (st : DState) (line : String) : DState × String :=
     match discOp st.disc rest with
     | some (d, o) => ({ st with disc := d }, o)
     | none => (st, "bad-op")
+  | "net" :: rest => (st, (netOp rest).getD "bad-op")
   | "tr" :: rest => (st, (trOp rest).getD "bad-op")
   | "adp" :: rest => (st, (adpOp rest).getD "bad-op")
   | "boxc" :: rest =>
